@@ -8,14 +8,18 @@ Body(x) == Bodies[x[4]]
 KeyLens == IF IOEnv.TIER = "quick" THEN {2, 3, 15, 16, 255, 256} ELSE {2, 3, 4, 5, 7, 8, 15, 16, 17, 31, 32, 64, 100, 128, 200, 255, 256}
 KeyOf(n) == [i \in 1..n |-> IF n = 16 /\ i % 2 = 0 THEN 0 ELSE ((i * 37 + n) % 254) + 1]      \* length 16: UTF-16-like, has zero bytes
 OptSets == { <<"user">>, <<"ip">>, <<"computer", "domain">>, <<"user", "computer", "domain", "ip">>, <<"domain", "ip">> }
-Kinds == {"none", "stored", "settings_byte", "padding_byte", "byte0"}
+\* "stored_minus1": the stored checksum is one too small; "plus1": a configuration byte of weight 1 (offset = 0 mod 3) is
+\* one larger than when the checksum was taken - the two smallest possible disagreements between checksum and content
+Kinds == {"none", "stored", "stored_minus1", "plus1", "settings_byte", "padding_byte", "byte0"}
 Scn == { <<n, o, c, b>> \in KeyLens \X OptSets \X Kinds \X (1..Len(Bodies)) : ((n * 7 + Len(o) + b) % 3 = 0 \/ c = "none") /\ (b = 1 \/ (n + Len(o)) % 2 = 0) }
+Plus1(b) == [b EXCEPT ![10] = @ + 1]          \* 1-based index 10 = offset 9, weight 1; the byte there is small in every body used
 Area(x) == LET st == StoredFor(Body(x))
-               a  == Protect(Body(x), KeyOf(x[1]), x[2], IF x[3] = "stored" THEN st + 1 ELSE st)
+               a  == Protect(IF x[3] = "plus1" THEN Plus1(Body(x)) ELSE Body(x), KeyOf(x[1]), x[2],
+                             IF x[3] = "stored" THEN st + 1 ELSE IF x[3] = "stored_minus1" THEN st - 1 ELSE st)
                p  == CASE x[3] = "settings_byte" -> 10 [] x[3] = "padding_byte" -> Len(Body(x)) + 900 [] x[3] = "byte0" -> 1 [] OTHER -> 0
            IN IF p = 0 THEN a ELSE [a EXCEPT ![p] = BXor(@, 64)]
 Row(x) == [body |-> x[4], keylen |-> x[1], key |-> KeyOf(x[1]), opts |-> x[2], kind |-> x[3], area |-> Area(x),
-           stored |-> (IF x[3] = "stored" THEN 1 ELSE 0) + StoredFor(Body(x)),
+           stored |-> (IF x[3] = "stored" THEN 1 ELSE IF x[3] = "stored_minus1" THEN 0 - 1 ELSE 0) + StoredFor(Body(x)),
            reportable |-> x[3] = "none"]
 Table == LET q == SetToSeq(Scn) IN [i \in 1..Len(q) |-> Row(q[i])]
 ASSUME Mode = "table" => JsonSerialize(IOEnv.OUTF, Table)
